@@ -837,6 +837,21 @@ static int overlapMain(void)
 		const char* f; size_t l, len; long doff; octet* arena; octet* snap; octet res[64]; err_t rc; char cls[96];
 		if (!vxParse(&c, line)) continue;
 		f = vxArg(&c, "f");
+		if (f && strcmp(f, "bashHashStepG") == 0)
+		{	/* bash.h: "hash and state may overlap" (no continuation): hash = state + off, any overlap incl. straddling;
+			   off=keep asks for the state size */
+			size_t keep = bashHash_keep(), hl; long off; octet* ar; octet* st; octet* msg; octet out[64];
+			l = (size_t)vxInt(&c, "l", 128); len = (size_t)vxInt(&c, "len", 32); hl = (size_t)vxInt(&c, "hlen", l / 4); off = (long)vxInt(&c, "off", 0);
+			if (vxArg(&c, "q")) { jBegin(); jStr("op", "keep"); jInt("keep", (long long)keep); jEnd(); continue; }
+			if (l == 0 || l > 256 || l % 16 || hl > l / 4 || hl == 0 || off <= -(long)hl || off >= (long)keep) return 2;
+			ar = (octet*)malloc(keep + 128); st = ar + 64; msg = (octet*)malloc(len ? len : 1); vxRandBuf(msg, len);
+			bashHashStart(st, l); bashHashStepH(msg, len, st); bashHashStepG(st + off, hl, st);
+			memcpy(out, st + off, hl);
+			sprintf(cls, "overlap:stepG:l=%u:hlen=%u:off=%ld", (unsigned)l, (unsigned)hl, off);
+			jBegin(); jStr("op", "bashHash"); jStr("cls", cls); jInt("l", (long long)l); jOct("in", msg, len);
+			jOct("out", out, hl); jStr("err", "OK"); jInt("doff", off); jEnd();
+			free(ar); free(msg); continue;
+		}
 		if (!f || strcmp(f, "bashHash") != 0) { fprintf(stderr, "unknown function %s\n", f ? f : "?"); return 3; }
 		l = (size_t)vxInt(&c, "l", 128); len = (size_t)vxInt(&c, "len", 32); doff = (long)vxInt(&c, "doff", 0);
 		if (l == 0 || l > 256 || l % 16 || len > 2048 || doff < -(long)OV_BASE || doff > (long)(len + 512)) return 2;
